@@ -483,6 +483,15 @@ CheckerSeeds == {
   FoldSeed(<<"(", "(", "p", ":", "[", "int", "]", ",", "q", ":", "int", ")", "->", "any", "{", "return", "p", "~", "@", "q", "}", ")">>, "Rejected"),
   FoldSeed(<<"(", "(", "p", ":", "[", "int", "]", ",", "q", ":", "(", "int", ")", "->", "int", ")", "->", "any", "{", "return", "p", "~", "$", "0", "q", "}", ")">>, "Rejected"),
   FoldSeed(<<"(", "(", "p", ":", "[", "int", "]", ",", "q", ":", "(", "int", ",", "int", ")", "->", "string", ")", "->", "any", "{", "return", "p", "~", "\\", "q", "}", ")">>, "Rejected"),
+  \* a name bound to the concatenation of constant arrays of different element types has the type of ALL the elements:
+  \* an element used as one member only is an error, wherever the use stands (a narrower hidden tag would let it through to the folder)
+  FoldSeed(<<"(", "(", ")", "->", "any", "{", "a", ":=", "[", "1", ",", "1.5", "]", "+", "[", "1", "]", ";", "return", "a", "[", "1", "]", "+", "1", "}", ")">>, "Rejected"),
+  FoldSeed(<<"(", "(", ")", "->", "any", "{", "a", ":=", "[", "1", "]", "+", "[", "1", ",", "1.5", "]", ";", "return", "a", "[", "1", "]", "+", "1", "}", ")">>, "Rejected"),
+  FoldSeed(<<"(", "(", ")", "->", "any", "{", "a", ":=", "[", "1", ",", "\"s\"", "]", "+", "[", "1", "]", ";", "return", "1", "<<", "a", "[", "1", "]", "}", ")">>, "Rejected"),
+  FoldSeed(<<"(", "(", ")", "->", "any", "{", "a", ":=", "[", "[", "1", "]", ",", "2", "]", "+", "[", "[", "1", "]", "]", ";", "return", "a", "[", "1", "]", "[", "0", "]", "}", ")">>, "Rejected"),
+  FoldSeed(<<"mod", "{", "a", ":=", "[", "1", ",", "1.5", "]", "+", "[", "1", "]", ";", "b", ":=", "a", "[", "1", "]", "+", "1", "}">>, "Rejected"),
+  FoldSeed(<<"mod", "{", "a", ":=", "[", "1", "]", "+", "[", "1", ",", "1.5", "]", ";", "b", ":=", "!", "a", "[", "0", "]", "}">>, "Rejected"),
+  FoldSeed(<<"mod", "{", "a", ":=", "[", "1", ",", "1.5", "]", "+", "[", "1", "]", ";", "b", ":=", "a", "[", "0", "]", ";", "c", ":=", "a", "+", "[", "2", "]", "}">>, "Accepted"),
   FoldSeed(<<"99999999999999999999">>, "Rejected")
 }
 ValidSeeds == {
